@@ -432,7 +432,7 @@ fn main() {
     let corpus = cf::corpus::load(&ctx.verif_dir);
     let mut groups: BTreeMap<String, Vec<(String, Vec<u8>)>> = BTreeMap::new();
     for (path, bytes) in corpus { let g = path.split('/').next().unwrap_or("").to_string(); groups.entry(g).or_default().push((path, bytes)); }
-    let nc = if groups.is_empty() { 0 } else { ctx.tier.pick(100, 5_000) };
+    let nc = if groups.is_empty() { 0 } else { ctx.tier.pick(60, 5_000) };
     run_cases(&ctx, &replay, &mut rep, "corpus", nc, |rng, rep, case| {
         let job = corpus_job(rng, &groups, &scratch, case);
         let o = run_job(rep, &job, Wrong::No);
